@@ -199,7 +199,10 @@ impl Case {
             "serial-FROM".to_string()
         } else if !self.expr.only_unions() {
             "intersection-or-EXCEPT-inside-FROM".to_string()
-        } else if self.size >= 3 && n_atoms >= 2 {
+        } else if self.size >= 3 && n_atoms >= 2 && (self.kind == StrKind::Printable || self.expr.terms.iter().flatten().filter(|(a, _)| !matches!(a, Atom::Str(_))).count() >= 2) {
+            // measured on the pinned tree: in the SIZE-folding path a union is widened to one contiguous range exactly when it
+            // has two or more *range* operands (string | range and string | string come out exact); PrintableString
+            // additionally folds in table order
             "union-folded-with-SIZE".to_string()
         } else {
             self.expr.shape()
@@ -439,6 +442,17 @@ fn atoms(k: StrKind, rng: Option<&mut Rng>) -> Vec<Atom> {
         v.push(Atom::ToMin(p[1]));
         v.push(Atom::ToMax(p[p.len() - 2]));
         v.push(Atom::ToMin(*p.last().unwrap()));
+    }
+    // strings that repeat a character, and strings whose characters lie one or two code points beyond a probe character
+    // (a literal next to a range is where contiguity tests of the folding code decide)
+    if let Some(base) = base_alphabet(k) {
+        for c in p.iter().skip(1).step_by(2) {
+            for d in [1u32, 2, 3] {
+                if let Some(n) = char::from_u32(*c as u32 + d).filter(|n| base.contains(&(*n as u32))) {
+                    v.push(Atom::Str(vec![n; d as usize]));
+                }
+            }
+        }
     }
     // a few multi-character strings
     if p.len() >= 3 {
